@@ -57,6 +57,11 @@ def OneOf(*ts):
 Opaque = T("Opaque")
 
 
+def Lit(value):
+    """A literal constant (used with OneOf for entry-time case splits over flag values)."""
+    return T("Lit", (value,))
+
+
 def Obj(**fields):
     """Immutable struct value with named fields (no identity, no heap)."""
     return T("Obj", tuple(sorted(fields.items())))
